@@ -948,18 +948,24 @@ end Reg
 /-! ### Optimizer::add -/
 namespace Opt
 
-theorem addParam_error {valid : PId → Bool} {o o' : Opt} {p : PId} (h : addParam valid o p = .error o') : o' = o := by
+theorem addParam_error {valid : PId → Bool} {o o' : Opt} {p : PId} (h : addParam valid o p = .error o') :
+    o'.params = o.params ∧ o'.needsStats = o.needsStats ∧ o.needsStats = true ∧ valid p = false ∧ p ∉ o.params := by
   unfold addParam at h
   split at h
   · cases h
-  · split at h
-    · cases h; rfl
+  · rename_i hp
+    simp only at h
+    split at h
+    · rename_i hc
+      simp only [Bool.and_eq_true, Bool.not_eq_eq_eq_not, Bool.not_true] at hc
+      cases h
+      exact ⟨rfl, rfl, hc.1, hc.2, hp⟩
     · cases h
 
 theorem addParam_ne_crash (valid : PId → Bool) (o : Opt) (p : PId) : addParam valid o p ≠ .crash := by
   unfold addParam; split
   · simp
-  · split <;> simp
+  · simp only; split <;> simp
 
 theorem addParam_ok {valid : PId → Bool} {o o' : Opt} {p : PId} (hn : o.params.Nodup) (h : addParam valid o p = .ok o') :
     o'.params.Nodup ∧ o'.needsStats = o.needsStats ∧ ∀ q, q ∈ o'.params ↔ q ∈ o.params ∨ q = p := by
@@ -972,10 +978,55 @@ theorem addParam_ok {valid : PId → Bool} {o o' : Opt} {p : PId} (hn : o.params
     · exact hq
     · subst hq; exact hp
   · rename_i hp
+    simp only at h
     split at h
     · cases h
     · cases h
       exact ⟨nodup_snoc hn hp, rfl, fun q => by simp⟩
+
+/-- the registration invariant survives every `add(parameter)`, accepted or rejected -/
+theorem addParam_wf {valid : PId → Bool} {o o' : Opt} {p : PId} (hw : o.wf valid)
+    (h : addParam valid o p = .ok o' ∨ addParam valid o p = .error o') : o'.wf valid := by
+  obtain ⟨h1, h2, h3⟩ := hw
+  unfold addParam at h
+  split at h
+  · rcases h with h | h <;> cases h
+    exact ⟨h1, h2, h3⟩
+  · rename_i hp
+    simp only at h
+    split at h
+    · rename_i hc
+      simp only [Bool.and_eq_true, Bool.not_eq_eq_eq_not, Bool.not_true] at hc
+      rcases h with h | h <;> cases h
+      refine ⟨h1, fun q hq => ?_, fun q hq hq' => ?_⟩
+      · have hne : p ≠ q := fun e => hp (e ▸ hq)
+        have := h2 q hq
+        simp only [configCount, List.count_append, List.count_cons, List.count_nil] at this ⊢
+        simp [hne, this]
+      · simp only [List.mem_append, List.mem_singleton] at hq
+        rcases hq with hq | hq
+        · exact h3 q hq hq'
+        · subst hq; exact hc
+    · rename_i hc
+      rcases h with h | h <;> cases h
+      have hpc : p ∉ o.configs := by
+        intro hin
+        have := h3 p hin hp
+        simp [this.1, this.2] at hc
+      refine ⟨nodup_snoc h1 hp, fun q hq => ?_, fun q hq hq' => ?_⟩
+      · simp only [List.mem_append, List.mem_singleton] at hq
+        simp only [configCount, List.count_append, List.count_cons, List.count_nil]
+        rcases hq with hq | hq
+        · have hne : p ≠ q := fun e => hp (e ▸ hq)
+          have := h2 q hq
+          simp only [configCount] at this
+          simp [hne, this]
+        · subst hq
+          simp [List.count_eq_zero.2 hpc]
+      · simp only [List.mem_append, List.mem_singleton, not_or] at hq hq'
+        rcases hq with hq | hq
+        · exact h3 q hq hq'.1
+        · exact absurd hq hq'.2
 
 theorem addList_ok {valid : PId → Bool} {o o' : Opt} {ps : List PId} (hn : o.params.Nodup) (h : addList valid o ps = .ok o') :
     o'.params.Nodup ∧ o'.needsStats = o.needsStats ∧ ∀ q, q ∈ o'.params ↔ q ∈ o.params ∨ q ∈ ps := by
@@ -1002,6 +1053,21 @@ theorem addList_ok {valid : PId → Bool} {o o' : Opt} {ps : List PId} (hn : o.p
     · cases h
     · cases h
 
+theorem addList_wf {valid : PId → Bool} {o o' : Opt} {ps : List PId} (hw : o.wf valid)
+    (h : addList valid o ps = .ok o' ∨ addList valid o ps = .error o') : o'.wf valid := by
+  induction ps generalizing o with
+  | nil => simp only [addList, Out.ok.injEq, reduceCtorEq, or_false] at h; subst h; exact hw
+  | cons p rest ih =>
+    simp only [addList] at h
+    split at h
+    · rename_i o1 h1
+      exact ih (addParam_wf hw (Or.inl h1)) h
+    · rename_i o1 h1
+      simp only [reduceCtorEq, Out.error.injEq, false_or] at h
+      subst h
+      exact addParam_wf hw (Or.inr h1)
+    · simp at h
+
 theorem addList_ne_crash (valid : PId → Bool) (o : Opt) (ps : List PId) : addList valid o ps ≠ .crash := by
   induction ps generalizing o with
   | nil => simp [addList]
@@ -1022,23 +1088,20 @@ theorem addList_error {valid : PId → Bool} {o o' : Opt} {ps : List PId} (h : a
     split at h
     · rename_i o1 h1
       have : o1.needsStats = o.needsStats := by
-        unfold addParam at h1
-        split at h1
-        · cases h1; rfl
-        · split at h1
-          · cases h1
+        by_cases hn : o.params.Nodup
+        · exact (addParam_ok hn h1).2.1
+        · unfold addParam at h1
+          split at h1
           · cases h1; rfl
+          · simp only at h1
+            split at h1
+            · cases h1
+            · cases h1; rfl
       obtain ⟨a, q, hq, hv⟩ := ih h
       exact ⟨this ▸ a, q, by simp [hq], hv⟩
     · rename_i o1 h1
-      unfold addParam at h1
-      split at h1
-      · cases h1
-      · split at h1
-        · rename_i hc
-          simp only [Bool.and_eq_true, Bool.not_eq_eq_eq_not, Bool.not_true] at hc
-          exact ⟨hc.1, p, by simp, hc.2⟩
-        · cases h1
+      obtain ⟨_, _, a, b, _⟩ := addParam_error h1
+      exact ⟨a, p, by simp, b⟩
     · cases h
 
 theorem addList_all_valid {valid : PId → Bool} {o : Opt} {ps : List PId} (hv : o.needsStats = false ∨ ∀ p ∈ ps, valid p = true) :
